@@ -191,32 +191,49 @@ def bsLoop (P : Int → Bool) (tl : List Int) : Nat → Nat → Nat → Nat
 /-- the loop started as the code starts it (`l, r := 0, n`); `n` iterations always suffice -/
 def bsearch (P : Int → Bool) (tl : List Int) : Nat := bsLoop P tl tl.length 0 tl.length
 
-/-- `findTimeRangeBounds` on the timestamps `tl` of the ordered slice; `asc` is `isAscending`.
-    Result: inclusive indices, `(0, -1)` for "nothing". -/
-def findBounds (cfg : Cfg) (asc : Bool) (tl : List Int) (fromT toT : Option Int) : Int × Int :=
-  let n : Int := tl.length
-  if tl.length = 0 then (0, -1) else
-  let s : Int :=
-    if asc then
-      (match fromT with
-       | some f => (bsearch (fun x => test cfg.bsAscFrom x f) tl : Nat)
-       | none => 0)
-    else
-      (match toT with
-       | some t => (bsearch (fun x => !test cfg.bsDescTo x t) tl : Nat)
-       | none => 0)
-  let e : Int :=
-    if asc then
-      (match toT with
-       | some t => ((bsearch (fun x => test cfg.bsAscTo x t) tl : Nat) : Int) - 1
-       | none => n - 1)
-    else
-      (match fromT with
-       | some f => ((bsearch (fun x => !test cfg.bsDescFrom x f) tl : Nat) : Int) - 1
-       | none => n - 1)
+/-- the tail of `findTimeRangeBounds`: clamp, then `(0, -1)` when the interval is empty -/
+def normBounds (n s e : Int) : Int × Int :=
   let s := if s < 0 then 0 else s
   let e := if e ≥ n then n - 1 else e
   if s > e || s ≥ n || e < 0 then (0, -1) else (s, e)
+
+/-- first index of the window, before normalisation -/
+def boundStart (cfg : Cfg) (asc : Bool) (tl : List Int) (fromT toT : Option Int) : Nat :=
+  if asc then
+    (match fromT with
+     | some f => bsearch (fun x => test cfg.bsAscFrom x f) tl
+     | none => 0)
+  else
+    (match toT with
+     | some t => bsearch (fun x => !test cfg.bsDescTo x t) tl
+     | none => 0)
+
+/-- one past the last index of the window (the code computes `this - 1`), before normalisation -/
+def boundStop (cfg : Cfg) (asc : Bool) (tl : List Int) (fromT toT : Option Int) : Nat :=
+  if asc then
+    (match toT with
+     | some t => bsearch (fun x => test cfg.bsAscTo x t) tl
+     | none => tl.length)
+  else
+    (match fromT with
+     | some f => bsearch (fun x => !test cfg.bsDescFrom x f) tl
+     | none => tl.length)
+
+/-- `findTimeRangeBounds` on the timestamps `tl` of the ordered slice; `asc` is `isAscending`.
+    Result: inclusive indices, `(0, -1)` for "nothing". -/
+def findBounds (cfg : Cfg) (asc : Bool) (tl : List Int) (fromT toT : Option Int) : Int × Int :=
+  if tl.length = 0 then (0, -1) else
+  normBounds (tl.length : Nat) ((boundStart cfg asc tl fromT toT : Nat) : Int) (((boundStop cfg asc tl fromT toT : Nat) : Int) - 1)
+
+/-- the second half of `GetManyFromOrderPosition`: offset and limit inside `[startIdx, endIdx]` -/
+def pageWithin (l : List Rec) (startIdx endIdx : Int) (from_ limit : Nat) : List Rec :=
+  let actualStart : Int := startIdx + from_
+  if actualStart > endIdx then [] else
+  let actualEnd : Int :=
+    if limit = 0 then endIdx
+    else (if actualStart + limit - 1 > endIdx then endIdx else actualStart + limit - 1)
+  let size : Int := actualEnd - actualStart + 1
+  if size ≤ 0 then [] else (l.drop actualStart.toNat).take size.toNat
 
 /-- `GetManyFromOrderPosition` on the ordered slice `l` of a beacon whose timestamps are `tsf`. -/
 def getMany (cfg : Cfg) (l : List Rec) (tsf : Rec → Int) (asc : Bool)
@@ -225,13 +242,7 @@ def getMany (cfg : Cfg) (l : List Rec) (tsf : Rec → Int) (asc : Bool)
   let windowed := fromT.isSome || toT.isSome
   let se : Int × Int := if windowed then findBounds cfg asc (l.map tsf) fromT toT else (0, n - 1)
   if windowed && (se.2 < se.1 || se.1 < 0) then [] else
-  let actualStart : Int := se.1 + from_
-  if actualStart > se.2 then [] else
-  let actualEnd : Int :=
-    if limit = 0 then se.2
-    else (if actualStart + limit - 1 > se.2 then se.2 else actualStart + limit - 1)
-  let size : Int := actualEnd - actualStart + 1
-  if size ≤ 0 then [] else (l.drop actualStart.toNat).take size.toNat
+  pageWithin l se.1 se.2 from_ limit
 
 /-! ### beacon pairs -/
 
